@@ -10,7 +10,7 @@ is an *operation*; operations of different threads interleave arbitrarily.
 db[k] = v / del db[k]          set k v / del k          (one critical section)
 WorkerLauncher.cancel()        cEnter r  : with self._lock: if thread alive: cancel.set(); join …
                                cJoin  r  : … join returned (the tracked thread died); lock released
-                               cClear r  : self.__cancel.clear()              (outside the lock)
+                               cClear r  : cancel() returns (the token was cleared under the lock, in cEnter / cJoin)
 WorkerLauncher.run(arg)        = cancel() ; rTrack r : with self._lock: self.__thread = thread
                                           ; rStart r : thread.start()
 worker thread (inner/start)    wBegin r  : with db._lock: clean → return cached | copy (polls cancel)
@@ -168,19 +168,23 @@ def step {R : Type} (m : Mode) (post : Store → R) (s : St R) : Label → Optio
         some { s with flag := true, joiner := some r,
                       ops := s.ops ++ [{ isReq := isReq, startGen := s.gen, c := .joining, w := .none }] }
       else
-        some { s with ops := s.ops ++ [{ isReq := isReq, startGen := s.gen, c := .unlocked, w := .none }] }
+        -- nothing to cancel: the token is cleared and the lock released in the same critical section
+        some { s with flag := false, ops := s.ops ++ [{ isReq := isReq, startGen := s.gen, c := .unlocked, w := .none }] }
     else none
   | .cJoin r =>
     match s.ops[r]? with
     | some o =>
       if o.c = .joining ∧ trackedAlive s = false then
-        some (setOp { s with joiner := none } r { o with c := .unlocked })
+        -- `join` returned; `self.__cancel.clear()` STILL UNDER THE LOCK, then the lock is released
+        some (setOp { s with joiner := none, flag := false } r { o with c := .unlocked })
       else none
     | none => none
   | .cClear r =>
     match s.ops[r]? with
     | some o =>
-      if o.c = .unlocked then some (setOp { s with flag := false } r { o with c := .cleared }) else none
+      -- `cancel()` returns (the token was cleared before the lock was released: a clear() that came any later could erase the
+      -- set() of a cancel() that is already waiting for its worker - the code before the fix did that)
+      if o.c = .unlocked then some (setOp s r { o with c := .cleared }) else none
     | none => none
   | .rTrack r =>
     match s.ops[r]? with
